@@ -164,7 +164,36 @@ fn build_filters(seed: u64) -> Vec<u8> {
         )
         .as_bytes(),
     );
-    for _ in 0..n_streams {
+    for si in 0..n_streams {
+        if si + 1 < n_streams && r.chance(1, 3) {
+            // a stream whose payload really is predictor-encoded for its (small) parameters:
+            // every PNG row filter type, sub-byte and multi-byte pixels, TIFF predictor too
+            let colors = *r.pick(&[1usize, 1, 3, 4]);
+            let bpc = *r.pick(&[1usize, 2, 4, 8, 8, 16]);
+            let columns = 1 + r.usize_below(40);
+            let rows = 1 + r.usize_below(6);
+            let row_bytes = (columns * colors * bpc + 7) / 8;
+            let predictor = *r.pick(&[2u32, 10, 11, 12, 13, 14, 15]);
+            let mut raw = vec![];
+            for _ in 0..rows {
+                if predictor >= 10 {
+                    raw.push(r.below(5) as u8);
+                }
+                raw.extend(r.bytes(row_bytes));
+            }
+            let lzw = r.chance(1, 6);
+            let data = if lzw { raw } else { zlib(&raw) };
+            let dict = format!(
+                "<< /Length {} /Filter /{} /DecodeParms << /Predictor {} /Colors {} /BitsPerComponent {} /Columns {} >> >>",
+                data.len(), if lzw { "LZWDecode" } else { "FlateDecode" }, predictor, colors, bpc, columns
+            );
+            let mut body = dict.into_bytes();
+            body.extend_from_slice(b"\nstream\n");
+            body.extend_from_slice(&data);
+            body.extend_from_slice(b"\nendstream");
+            push_obj(&mut out, &mut offs, &body);
+            continue;
+        }
         let nf = 1 + r.usize_below(3);
         let rl = 1 + r.usize_below(300);
         let mut data = if r.chance(1, 2) { content.clone() } else { r.bytes(rl) };
